@@ -210,10 +210,41 @@ def replay_wedge(case) -> dict:
     return dict(failures=fails, classes={"wedge": 1})
 
 
+def replay_lowpass(case) -> dict:
+    """Composition with the Butterworth gains of spec/Filter.tla: with a cutoff the score is the normalised correlation of the
+    sub-volume and template after the exact gain (TLC's rationals) has been applied to both."""
+    from harness.props.c16 import _gains
+
+    cfg = case["cfg"]
+    shape = tuple(cfg["s"])
+    c = cfg["c"][0] / cfg["c"][1]
+    G = _gains(case)
+    rng = np.random.default_rng(case["seed"])
+    tmpl = rng.normal(size=shape).astype(np.float32)
+    sub = (0.6 * tmpl + rng.normal(size=shape)).astype(np.float32)
+    desc = dict(part="lowpass", model=case["model"], shape=list(shape), odd=[n % 2 for n in shape], cutoff=round(c, 4), identity=case["identity"])
+    model = _models()[case["model"]](tmpl, cutoff=c)
+    got = float(engine.api(model.score, sub, IDQ, ZERO))
+    a = np.fft.ifftn(np.fft.fftn(sub.astype(np.float64)) * G).real
+    b = np.fft.ifftn(np.fft.fftn(tmpl.astype(np.float64)) * G).real
+    if case["model"] == "ZNCC":
+        a, b = a - a.mean(), b - b.mean()
+    den = math.sqrt(float((a * a).sum() * (b * b).sum()))
+    if den < 1e-6:
+        return dict(failures=[], classes={"degenerate": 1})
+    want = float((a * b).sum()) / den
+    fails = []
+    if not abs(got - want) < 2e-3:
+        fails.append(dict(desc, clause="ScoreIsPearsonOfLowpassFiltered", observed=got, expected=want))
+    return dict(failures=fails, classes={"lowpass": 1})
+
+
 def replay(case) -> dict:
     k = case.get("part")
     if k == "wedge":
         return replay_wedge(case)
+    if k == "lowpass":
+        return replay_lowpass(case)
     if k == "relation":
         return replay_rel(case)
     if k == "loader":
@@ -247,11 +278,15 @@ def run(rep: engine.Report, tier: str, seed: int):
     wsel = engine.stratified_sample(wsel, lambda c: (len(set(c["cfg"]["shape"])) == 1, c["cfg"]["R"]["d"] == 1, c["cfg"]["axis"], json.dumps(c["cfg"]["tp"])),
                                     240 if tier == "quick" else 2400, seed)
     wedge = [dict(part="wedge", model=("ZNCC", "NCC")[j % 2], cfg=c["cfg"], mask=c["mask"], seed=seed * 31 + j) for j, c in enumerate(wsel)]
-    allc = exact + rel + ldr + wedge
+    fc = rep.add_tlc(engine.tlc("MC_C16", "MC_C16", workers=1, timeout=3000, tag="lowpass"))
+    fsel = [c for c in fc.emitted if c["cfg"]["order"] == 2 and min(c["cfg"]["s"]) >= 2 and c["cfg"]["c"][0] > 0]
+    fsel = engine.stratified_sample(fsel, lambda c: (tuple(n % 2 for n in c["cfg"]["s"]), json.dumps(c["cfg"]["c"])), 200 if tier == "quick" else len(fsel), seed)
+    lowp = [dict(part="lowpass", model=("ZNCC", "NCC")[j % 2], cfg=c["cfg"], rden=c["rden"], rnum=c["rnum"], identity=c["identity"], seed=seed * 17 + j) for j, c in enumerate(fsel)]
+    allc = exact + rel + ldr + wedge + lowp
     results = engine.parallel_replay("harness.props.c07", "replay", allc)
-    engine.collect(rep, allc, results, key=lambda c: (c.get("part"), c.get("model"), c["cfg"]) if c.get("part") == "wedge" else (c.get("cfg") or c))
+    engine.collect(rep, allc, results, key=lambda c: (c.get("part"), c.get("model"), c["cfg"]) if c.get("part") in ("wedge", "lowpass") else (c.get("cfg") or c))
     rep.traces_validated = len(allc)
-    memo.run_family(rep, ["zncc_landscape", "pcc_landscape"])
+    memo.run_family(rep, ["zncc_landscape", "pcc_landscape", "zncc_score_tilt", "ncc_score_tilt", "zncc_landscape_tilt", "zncc_align_tilt", "pcc_align_tilt", "fsc_score_tilt"])
     rep.samples = [dict(cfg=exact[0]["cfg"], score=exact[0]["score"]), rel[0], ldr[0]]
     rep.rule = (
         f"exact: TLC computes NCC/ZNCC triples for 5 integer image pairs x boxes (2,2,2),(3,3,3),(2,3,4),(4,4,4) x masks none/binary/"
@@ -260,10 +295,11 @@ def run(rep: engine.Report, tier: str, seed: int):
         f"orientation ({len(rel)} cases: bounds, self=1, gain/offset invariance, score=landscape centre=align(0).score, landscape "
         f"arg-max = reported shift); loader.score / construct_landscape vs the model ({len(ldr)} cases); wedge composition: "
         f"{len(wedge)} (box, orientation, tilt pair, axis) cases with the exact mask of spec/Wedge.tla (TLC): the model's mask at the "
-        "molecule orientation agrees on every bin off a plane, and ZNCC/NCC score = normalised correlation after that mask"
+        "molecule orientation agrees on every bin off a plane, and ZNCC/NCC score = normalised correlation after that mask; low-pass "
+        f"composition: {len(lowp)} (box, cutoff) cases with the exact Butterworth gains of spec/Filter.tla: score = normalised correlation of the filtered pair"
     )
-    rep.assumptions += ["with a cutoff only the stated relations are checked, not the Pearson value itself (needs an exact filtered DFT); with a tilt "
-                        "model the value is checked against the correlation after the wedge mask (bins exactly on a wedge plane as the model has them)"]
+    rep.assumptions += ["with a tilt model the score is checked against the correlation after the wedge mask (bins exactly on a wedge plane as the model "
+                        "has them); with a cutoff against the correlation after the exact Butterworth gain (boxes up to 5^3); cutoff and wedge TOGETHER only through relations"]
 
 
 def replay_file(path: str) -> int:
